@@ -10,8 +10,9 @@ package c07
 //
 //	I      ingress POST of a new message                     (Store.Enqueue, generated id)
 //	P1..P3 admin publish of 1..3 new messages in one request (Store.EnqueueBatch)
-//	Pdup   admin publish of one new message twice in one request (same id twice: refused by the store after its depth handling)
-//	Pex    admin publish under the id of the oldest queued message
+//	Pex    admin publish under the id of the oldest queued message (the handler's duplicate pre-check answers 409)
+//	Bdup   Store.EnqueueBatch of one new message twice (same id twice in the batch: the admin handler refuses such a
+//	       request while parsing it, so the store only sees this from an in-process producer or from two racing publishes)
 //	SdupO  Store.Enqueue under the id of the oldest queued message   (what the MCP publish tool calls)
 //	SdupN  Store.Enqueue under the id of the newest stored message
 //	D      pull dequeue of one message (HTTP and gRPC alternate)
@@ -45,6 +46,7 @@ import (
 	"strings"
 	"time"
 
+	"github.com/nuetzliches/hookaido/internal/queue"
 	"github.com/nuetzliches/hookaido/internal/verifkit/runner"
 	workerapipb "github.com/nuetzliches/hookaido/internal/workerapi/proto"
 	"google.golang.org/grpc/metadata"
@@ -86,7 +88,7 @@ type hist struct {
 	MaxLen int      `json:"max_len,omitempty"`
 }
 
-var enqueueOps = []string{"I", "P1", "P2", "P3", "Pdup", "Pex", "SdupO", "SdupN"}
+var enqueueOps = []string{"I", "P1", "P2", "P3", "Pex", "Bdup", "SdupO", "SdupN"}
 var leaseOps = []string{"D", "A", "N"}
 
 func opsFor(flow string) []string {
@@ -121,7 +123,7 @@ func boundedJobs(r *runner.Run, emit func(job) bool) bool {
 				max = l.memory
 			}
 			for _, fl := range flows {
-				for _, first := range []string{"I", "P1", "P2", "P3", "Pdup"} { // every other operation is a no-op on an empty queue
+				for _, first := range []string{"I", "P1", "P2", "P3", "Bdup"} { // every other operation is a no-op on an empty queue
 					if !emit(job{Backend: be, Flow: fl, Hist: &hist{Conf: cf, Ops: []string{first}, MaxLen: max}}) {
 						return false
 					}
@@ -408,13 +410,26 @@ func (h *histRun) step(n int, op string) (done, ok bool) {
 		}
 		return true, true
 
-	case "P1", "P2", "P3", "Pdup", "Pex":
+	case "Bdup":
+		be, isBatcher := x.in.a.Store.(queue.BatchEnqueuer)
+		if !isBatcher {
+			x.infra("the store is not a BatchEnqueuer")
+			return false, false
+		}
+		k := h.newCase("store", "")
+		if n, err := be.EnqueueBatch([]queue.Envelope{x.envelope(k), x.envelope(k)}); err == nil {
+			note("accepted")
+			x.infra("EnqueueBatch stored %d items of a batch that holds the same id twice (history %v)", n, x.ops)
+			return false, false
+		}
+		note("refused")
+		h.refused([]int{k}, 2, op)
+		return true, true
+
+	case "P1", "P2", "P3", "Pex":
 		var idx []int
 		id := ""
 		switch op {
-		case "Pdup":
-			k := h.newCase("publish", "")
-			idx = []int{k, k}
 		case "Pex":
 			o, have := h.oldestQueued()
 			if !have {
@@ -433,9 +448,6 @@ func (h *histRun) step(n int, op string) (done, ok bool) {
 			return false, false
 		}
 		uniq := idx
-		if op == "Pdup" {
-			uniq = idx[:1]
-		}
 		switch {
 		case rec.Code >= 200 && rec.Code < 300:
 			note("accepted")
